@@ -163,7 +163,8 @@ func main() {
 	o.Evaluations += nIndep
 	o.Info["independence_cases"] = nIndep
 	// ---- (e) registration histories: every sequence of up to four operations out of {register the inner type
-	// with its tag, register the outer type with its tag, use the inner type, use the outer type}, followed by
+	// with its tag, register the outer type with its tag, register the inner type without tags, use the inner type,
+	// use the outer type}, followed by
 	// the registration of both (in either order), leaves the coders in the state that the registration alone
 	// produces: same bytes, fields preserved by a round trip. A registry that answers from what an earlier
 	// use has cached (the field map of the inner type built without the tag when the outer type was
@@ -175,6 +176,7 @@ func main() {
 	}{
 		{"register-inner", func() { hio.Register((*regInner)(nil), "custom") }},
 		{"register-outer", func() { hio.Register((*regOuter)(nil), "custom") }},
+		{"register-inner-without-tags", func() { hio.Register((*regInner)(nil)) }},
 		{"use-inner", func() {
 			b, _ := hio.Marshal(regInner{"u"})
 			var v regInner
